@@ -1179,7 +1179,10 @@ def check_tables(ctx):
     else:
         rc2, out2 = core.coqc_scratch(ctx, "c15_positive", "From CM Require Import Properties.C15_positive.\n"
                                       "Print Assumptions C15_tables_positive.\nPrint Assumptions C15_here.\nPrint Assumptions C15_here_nonvacuous.\n")
-        if rc2 != 0 or out2.count("Closed under the global context") != 3:
+        if rc2 != 0:
+            ctx.tie_broken.append("proof: Properties/C15_positive.v no longer checks on the extracted tables (strict the_validators / "
+                                  "good_pipe the_tables): a negative branch of C15 is active — " + " ".join(out2[-200:].split()))
+        elif out2.count("Closed under the global context") != 3:
             ctx.tie_broken.append("axioms: Properties/C15_positive.v is not closed under the global context: " + out2[-200:])
         else:
             ctx.notes.append("Properties/C15_positive.v: C15_tables_positive, C15_here, C15_here_nonvacuous closed under the global context")
